@@ -133,8 +133,19 @@ fn steps(ops: &[Op]) -> usize {
 
 const MSG_PREFIX: &str = "wfmsg#";
 
+/// what follows the number: messages are arbitrary text — non-ASCII, quotes, backslashes,
+/// control characters — and must come back verbatim
+fn msg_tail(m: u64) -> &'static str {
+    match m % 4 {
+        0 => "",
+        1 => " caf\u{e9} \u{65e5}\u{672c}",
+        2 => " \"q\" \\ 'x'",
+        _ => "\ttab\nline {}",
+    }
+}
+
 fn msg_text(m: u64) -> String {
-    format!("{MSG_PREFIX}{m}#")
+    format!("{MSG_PREFIX}{m}#{}", msg_tail(m))
 }
 
 /// message numbers whose text occurs in `s`
@@ -145,8 +156,9 @@ fn ids_in(s: &str) -> Vec<u64> {
         let tail = &rest[p + MSG_PREFIX.len()..];
         let digits: String = tail.chars().take_while(|c| c.is_ascii_digit()).collect();
         if !digits.is_empty() && tail[digits.len()..].starts_with('#') {
-            if let Ok(n) = digits.parse() {
-                if !out.contains(&n) {
+            if let Ok(n) = digits.parse::<u64>() {
+                // only the complete, unaltered message counts
+                if tail[digits.len() + 1..].starts_with(msg_tail(n)) && !out.contains(&n) {
                     out.push(n);
                 }
             }
